@@ -93,7 +93,7 @@ def in_order(out, pieces):
     return None
 
 
-WORD = re.compile(r"[A-Za-z0-9]+")
+WORD = re.compile(r"[^\W_]+")          # Unicode words (a percent-encoded or entity-encoded copy of a word is not the word)
 
 
 def oracle(ctx, docs):
@@ -156,13 +156,22 @@ def oracle(ctx, docs):
                 ctx.fail("two-step-differs", "rendering the token list obtained without a renderer differs from one-step conversion for %r under %s" % (d, c["name"]), dict(rep, one=out[:300], two=two[:300]))
         # (d) Markdown / RST renderers on core syntax
         try:
-            toks = ast_core(d)
+            toks, st = ast_core.parse(d)
             mo, ro = mdr(d), rst(d)
         except RecursionError:
             continue
         except Exception:
             continue
         n += 1
+        # (e) for the Markdown and RST renderers: a real token list rendered in a second step
+        for nm, conv, one in (("Markdown", mdr, mo), ("RST", rst, ro)):
+            try:
+                two = conv.renderer(copy.deepcopy(toks), st)
+            except Exception as e:
+                ctx.fail("two-step-exception:" + nm, "the %s renderer raised %r on the token list of a renderer=None run of %r" % (nm, e, d), {"doc": d}); continue
+            if two != one:
+                ctx.fail("two-step-differs:" + nm, "the %s renderer gives a different string for the token list obtained without a renderer than one-step conversion, for %r" % (nm, d),
+                         {"doc": d, "one": one[:300], "two": two[:300]})
         lv = []
         leaves(toks, lv, alt=True)
         want = []
@@ -200,6 +209,9 @@ def focused(rng):
 def run(ctx):
     ctx.broken += common.proof_stage(ctx, THEOREMS)
     docs = [gen.md_any(ctx.rng, 8) if ctx.rng.random() < 0.8 else focused(ctx.rng) for _ in range(1800 if ctx.quick() else 30000)]
+    sweep = gen.slot_sweep()
+    ctx.rng.shuffle(sweep)
+    docs += sweep[: (900 if ctx.quick() else len(sweep))]
     n = oracle(ctx, docs)
     if ctx.broken and not ctx.failures:
         ctx.notes.append("search mode entered")
